@@ -6,7 +6,7 @@ LABELS = set(['%s::is_exhausted' % a for a in ADAPTORS] + [
     'FromIterator::next', 'FromIterator::is_exhausted',
     'FromInterleavedSamplesIterator::next', 'FromInterleavedSamplesIterator::is_exhausted',
     'UntilExhausted::next', 'Take::next', 'Take::size_hint', 'Take::len',
-    'IntoInterleavedSamples::next_sample', 'IntoInterleavedSamples::into_iter', 'IntoInterleavedSamplesIterator::next', 'Delay::next',
+    'IntoInterleavedSamples::next_sample', 'IntoInterleavedSamples::into_iter', 'IntoInterleavedSamplesIterator::next', 'IntoInterleavedSamples::clone', 'Delay::next',
     'Signal::take', 'Signal::until_exhausted', 'Signal::into_interleaved_samples', 'Signal::delay',
     'from_iter', 'from_interleaved_samples_iter',
 ])
@@ -18,7 +18,7 @@ def run(ctx):
                        'contracts of its parts; its FnOnce call is not extracted')
     ctx.notes.append('lemmas lemma_from_iter_yields_items / lemma_from_iter_exhausted_forever / '
                      'lemma_from_iter_deterministic proved by induction over the iterator state machine')
-    run_unit(ctx, 'signal', only_labels=LABELS, search_map={'IntoInterleavedSamples::into_iter': ['IntoInterleavedSamples::next_sample'],
+    run_unit(ctx, 'signal', only_labels=LABELS, search_map={'IntoInterleavedSamples::into_iter': ['IntoInterleavedSamples::next_sample'], 'IntoInterleavedSamples::clone': ['IntoInterleavedSamples::next_sample'],
                                                           'IntoInterleavedSamplesIterator::next': ['IntoInterleavedSamples::next_sample']})
     frame_contracts(ctx)
 
